@@ -1022,7 +1022,9 @@ struct StrDriver {
             // every other operation whose std result does not fit: capacity exhaustion (F1) without a documented
             // answer. The library may truncate or trap, the content is unspecified - but the string must stay inside
             // its storage and keep its invariants (checked here and by the guards / sanitizers); then re-synchronise.
-            if (!flt || len == npos || usesOther) {
+            // (cstr + s and ch + s first construct a string from the left operand, which has a documented precondition:
+            // those two forms are not part of this clause)
+            if (!flt || len == npos || usesOther || (kind == K_PLUS && var >= 3)) {
                 ctx.log.s(" does-not-fit");
                 skip();
                 return;
